@@ -1089,14 +1089,47 @@ fn read_cone(nodes: &[NodeSpec], n: usize, depth: usize, out: &mut Vec<usize>) {
     }
 }
 
-/// every path from `x` down to register `w` passes a node of `invs` (other than `w`)
-fn paths_covered(nodes: &[NodeSpec], x: usize, w: usize, invs: &[usize], depth: usize) -> bool {
+/// nodes a WRITE is forwarded to: a Boolean / Command forwards only when it is the entry node of
+/// the operation (`IBoolean::set_value`, `ICommand::execute`); reached through a `pValue` chain
+/// (`NodeId::set_value::<i64>`) it is not writable and nothing below it is touched.
+fn write_children(n: &NodeSpec, top: bool) -> Vec<usize> {
+    match n {
+        NodeSpec::Command(..) | NodeSpec::Boolean(..) if !top => vec![],
+        _ => children(n),
+    }
+}
+
+/// registers a write entering at `e` can really reach (see `write_children`)
+fn reach_regs_w(nodes: &[NodeSpec], e: usize, depth: usize, top: bool, out: &mut Vec<usize>) {
+    if depth == 0 || e >= nodes.len() {
+        return;
+    }
+    match &nodes[e] {
+        NodeSpec::Reg(_) => {
+            if !out.contains(&e) {
+                out.push(e)
+            }
+        }
+        n => {
+            for c in write_children(n, top) {
+                reach_regs_w(nodes, c, depth - 1, false, out)
+            }
+        }
+    }
+}
+
+/// every path a write takes from `x` down to register `w` passes a node of `invs` (other than `w`)
+fn paths_covered_w(nodes: &[NodeSpec], x: usize, w: usize, invs: &[usize], depth: usize, top: bool) -> bool {
     if depth == 0 || x >= nodes.len() {
         return false;
     }
     match &nodes[x] {
         NodeSpec::Reg(_) => x != w,
-        n if is_feature(n) => invs.contains(&x) || children(n).iter().all(|c| paths_covered(nodes, *c, w, invs, depth - 1)),
+        n if is_feature(n) => {
+            let cs = write_children(n, top);
+            // a Boolean / Command below the entry stops the write: nothing to cover
+            (cs.is_empty() && !top) || invs.contains(&x) || cs.iter().all(|c| paths_covered_w(nodes, *c, w, invs, depth - 1, false))
+        }
         _ => true,
     }
 }
@@ -1104,7 +1137,8 @@ fn paths_covered(nodes: &[NodeSpec], x: usize, w: usize, invs: &[usize], depth: 
 /// entry node of a writing operation
 fn write_entry(nodes: &[NodeSpec], op: &Op) -> Option<usize> {
     match op {
-        Op::SetValue(n, _) => Some(*n),
+        // `set_value` of a Command / Port fails with InvalidNode before anything happens
+        Op::SetValue(n, _) if !matches!(nodes.get(*n), Some(NodeSpec::Command(..)) | Some(NodeSpec::Port) | None) => Some(*n),
         // `execute` of something that is not a Command / raw write of something that is not a
         // register fails with InvalidNode before anything happens
         Op::Execute(n) if matches!(nodes.get(*n), Some(NodeSpec::Command(..))) => Some(*n),
@@ -1132,11 +1166,11 @@ fn declared_for_history(nodes: &[NodeSpec], ops: &[Op]) -> (bool, bool) {
         plain = false;
         for e in ops.iter().filter_map(|op| write_entry(nodes, op)) {
             let mut regs = vec![];
-            reach_regs(nodes, e, d, &mut regs);
+            reach_regs_w(nodes, e, d, true, &mut regs);
             if !regs.contains(&w) {
                 continue;
             }
-            if !paths_covered(nodes, e, w, &rt.invs, d) {
+            if !paths_covered_w(nodes, e, w, &rt.invs, d, true) {
                 return (false, false);
             }
             // footprint of the operation: everything it writes, and everything read for the addresses
@@ -2506,6 +2540,307 @@ fn do_shape_case(rep: &mut Report, case: &ShapeCase, feats: &[&'static str], src
     }
 }
 
+// ---------------------------------------------------------------- dyn-key stream (tied to `Model.CacheDyn`)
+//
+// Registers whose cache key varies: `<pLength>` and / or `<pAddress>` name value-store Integer
+// nodes (`<Integer><Value>`), so changing the key touches neither the device nor the cache and
+// the harness knows the key `(address, length)` of every access.  The real code runs the history
+// through the node API (both builds); the model runs the same accesses as primitive steps at the
+// explicit keys (`c04 dyn …`); results, final image and full access log are compared.  Oracle:
+// when every cachable register lists every OTHER register of the description or its port
+// (`allListedB`; a register need not list itself since the repair of F-C04-4) the two builds
+// must agree.
+
+struct DynReg {
+    base: i64,
+    asrc: Option<usize>,
+    lsrc: Option<usize>,
+    len: usize,
+    mode: Mode,
+    invs: Vec<usize>,
+    port: usize,
+    be: bool,
+    signed: bool,
+}
+
+fn do_dyn_case(rep: &mut Report, rng: &mut Rng, thorough: bool) {
+    let n_mem = 48usize;
+    let n_ports = if rng.chance(1, 4) { 2 } else { 1 };
+    let n_src = rng.range(1, 3) as usize;
+    let n_reg = rng.range(1, 3) as usize;
+    let src0 = n_ports;
+    let reg0 = n_ports + n_src;
+    let n = reg0 + n_reg;
+    let lens = [1i64, 2, 2, 4, 4, 8, 3];
+    // each source is used either as a length or as an address offset
+    let is_len: Vec<bool> = (0..n_src).map(|i| if i == 0 { true } else { rng.bool() }).collect();
+    let mut cur: Vec<i64> = (0..n_src).map(|i| if is_len[i] { *rng.pick(&lens) } else { rng.below(5) as i64 }).collect();
+    let all_listed_wanted = rng.chance(2, 5);
+    let mut regs: Vec<DynReg> = vec![];
+    for i in 0..n_reg {
+        let id = reg0 + i;
+        let lsrcs: Vec<usize> = (0..n_src).filter(|j| is_len[*j]).collect();
+        let asrcs: Vec<usize> = (0..n_src).filter(|j| !is_len[*j]).collect();
+        let lsrc = if rng.chance(2, 3) { Some(*rng.pick(&lsrcs)) } else { None };
+        let asrc = if !asrcs.is_empty() && rng.chance(1, 2) { Some(*rng.pick(&asrcs)) } else { None };
+        let port = rng.below(n_ports as u64) as usize;
+        let mut invs: Vec<usize> = vec![];
+        if all_listed_wanted {
+            if rng.bool() {
+                invs.extend(0..n_ports);
+            } else {
+                invs.extend(reg0..reg0 + n_reg);
+            }
+        } else {
+            for c in (0..n_ports).chain(reg0..reg0 + n_reg) {
+                if rng.chance(1, 3) {
+                    invs.push(c);
+                }
+            }
+        }
+        let _ = id;
+        let span = if rng.chance(1, 10) { 44 } else { 12 };
+        regs.push(DynReg { base: 8 + rng.below(span) as i64, asrc, lsrc, len: *rng.pick(&[1usize, 2, 4, 4, 8]), mode: gen_mode(rng), invs, port, be: rng.bool(), signed: rng.bool() });
+    }
+    // XML
+    let mut xml = String::from(XML_HEAD);
+    for p in 0..n_ports {
+        xml += &format!("<Port Name=\"N{p}\"></Port>\n");
+    }
+    for i in 0..n_src {
+        xml += &format!("<Integer Name=\"N{}\"><Value>{}</Value></Integer>\n", src0 + i, cur[i]);
+    }
+    for (i, r) in regs.iter().enumerate() {
+        let addr = match r.asrc {
+            Some(a) => format!("<Address>{}</Address><pAddress>N{}</pAddress>", r.base, src0 + a),
+            None => format!("<Address>{}</Address>", r.base),
+        };
+        let len = match r.lsrc {
+            Some(l) => format!("<pLength>N{}</pLength>", src0 + l),
+            None => format!("<Length>{}</Length>", r.len),
+        };
+        let invs: String = r.invs.iter().map(|j| format!("<pInvalidator>N{j}</pInvalidator>")).collect();
+        xml += &format!("<IntReg Name=\"N{}\">{addr}{len}<AccessMode>RW</AccessMode><pPort>N{}</pPort><Cachable>{}</Cachable>{invs}{}{}</IntReg>\n", reg0 + i, r.port, mode_xml(r.mode), sign_xml(r.signed), endian_xml(r.be));
+    }
+    xml += "</RegisterDescription>\n";
+    // model graph (value-store nodes are never evaluated by the steps: any non-register node does)
+    let mut gnodes: Vec<String> = vec![];
+    for _ in 0..n_ports {
+        gnodes.push("P".into());
+    }
+    for _ in 0..n_src {
+        gnodes.push("G/0/-".into());
+    }
+    for r in &regs {
+        let invs = if r.invs.is_empty() { "-".to_string() } else { r.invs.iter().map(|j| j.to_string()).collect::<Vec<_>>().join(",") };
+        gnodes.push(format!("R/I{}{}/{}/-/{}/{}/RW/{}/{}", if r.be { 'b' } else { 'l' }, if r.signed { 's' } else { 'u' }, r.base, r.len, match r.mode {
+            Mode::WT => "WT",
+            Mode::WA => "WA",
+            Mode::NC => "NC",
+        }, invs, r.port));
+    }
+    let g = gnodes.join(";");
+    let all_listed = regs.iter().enumerate().all(|(ti, t)| t.mode == Mode::NC || regs.iter().enumerate().all(|(wi, w)| wi == ti || t.invs.contains(&(reg0 + wi)) || t.invs.contains(&w.port)));
+    // device
+    let mut dev = DevSpec { mem: rng.bytes(n_mem), no_access: vec![], no_write: vec![], rej_w: vec![], rej_p: vec![] };
+    if rng.chance(1, 5) {
+        dev.rej_w.push(rng.below(6));
+    }
+    if rng.chance(1, 5) {
+        let jl = rng.below(3) as usize;
+        dev.rej_p.push((rng.below(6), rng.range(0, 9) as usize, rng.bytes(jl)));
+    }
+    if rng.chance(1, 8) {
+        dev.no_write.push((rng.below(n_mem as u64) as i64, rng.range(1, 3)));
+    }
+    // history
+    let key = |regs: &Vec<DynReg>, cur: &Vec<i64>, i: usize| -> (i64, usize) {
+        let r = &regs[i];
+        (r.base + r.asrc.map_or(0, |a| cur[a]), r.lsrc.map_or(r.len as i64, |l| cur[l]) as usize)
+    };
+    let mut ops: Vec<Op> = vec![];
+    let mut steps: Vec<String> = vec![];
+    let n_ops = rng.range(6, if thorough { 40 } else { 24 }) as usize;
+    while ops.len() < n_ops {
+        let i = rng.below(n_reg as u64) as usize;
+        let (a, l) = key(&regs, &cur, i);
+        match rng.below(20) {
+            0..=5 => {
+                let j = rng.below(n_src as u64) as usize;
+                cur[j] = if is_len[j] { *rng.pick(&lens) } else { rng.below(5) as i64 };
+                ops.push(Op::SetValue(src0 + j, ValS::Int(cur[j])));
+                steps.push("u".into());
+            }
+            6..=12 => {
+                ops.push(Op::Value(reg0 + i));
+                steps.push(format!("V/{}/{a}/{l}", reg0 + i));
+            }
+            13..=15 => {
+                let d = rng.bytes(l);
+                steps.push(format!("W/{}/{a}/{}", reg0 + i, hex(&d)));
+                ops.push(Op::Write(reg0 + i, d));
+            }
+            16..=17 => {
+                ops.push(Op::Read(reg0 + i, l));
+                steps.push(format!("R/{}/{a}/{l}", reg0 + i));
+            }
+            18 => {
+                ops.push(Op::ClearCache);
+                steps.push("cc".into());
+            }
+            _ => {
+                // directed: read, move the key, write, move back, read
+                let srcs_of: Vec<usize> = regs[i].lsrc.into_iter().chain(regs[i].asrc.into_iter()).collect();
+                if srcs_of.is_empty() {
+                    continue;
+                }
+                let j = *rng.pick(&srcs_of);
+                let old = cur[j];
+                ops.push(Op::Value(reg0 + i));
+                steps.push(format!("V/{}/{a}/{l}", reg0 + i));
+                cur[j] = if is_len[j] { *rng.pick(&[1i64, 2, 4, 8]) } else { rng.below(5) as i64 };
+                ops.push(Op::SetValue(src0 + j, ValS::Int(cur[j])));
+                steps.push("u".into());
+                let (a2, l2) = key(&regs, &cur, i);
+                let d = rng.bytes(l2);
+                steps.push(format!("W/{}/{a2}/{}", reg0 + i, hex(&d)));
+                ops.push(Op::Write(reg0 + i, d));
+                cur[j] = old;
+                ops.push(Op::SetValue(src0 + j, ValS::Int(old)));
+                steps.push("u".into());
+                ops.push(Op::Value(reg0 + i));
+                steps.push(format!("V/{}/{a}/{l}", reg0 + i));
+            }
+        }
+    }
+    let mut kinds: Vec<(SK, bool)> = vec![];
+    for _ in 0..n_ports {
+        kinds.push((SK::Port, false));
+    }
+    for _ in 0..n_src {
+        kinds.push((SK::Int, false));
+    }
+    for _ in 0..n_reg {
+        kinds.push((SK::Int, true));
+    }
+    let _ = n;
+    let case = ShapeCase { xml, kinds, dev, ops };
+    let replay = shape_to_json(&case);
+    let (found, rc, ru) = match shape_findings(&case) {
+        Some(x) => x,
+        None => {
+            rep.count("build:failed");
+            rep.violation(json!({"kind": "harness-xml-rejected"}), "generated dyn-key XML was rejected by the real builder", replay);
+            return;
+        }
+    };
+    let d = dev_str(&case.dev);
+    let st = steps.join(";");
+    let canon = format!("dyn {g} {d} {st}");
+    let nontrivial = rc.outs.iter().filter(|x| !matches!(x, Out::Err(_) | Out::Panic)).count() >= 3 && rc.log.iter().any(|a| a.write && a.ok);
+    rep.case(&canon, nontrivial);
+    rep.count("case/dyn-key-stream");
+    rep.count(if all_listed { "class/dyn-key-stream: all-listed (oracle applies)" } else { "class/dyn-key-stream: not all-listed" });
+    if regs.iter().any(|r| r.lsrc.is_some()) {
+        rep.count("dyn:pLength");
+    }
+    if regs.iter().any(|r| r.asrc.is_some()) {
+        rep.count("dyn:pAddress");
+    }
+    if rc.log.len() < ru.log.len() {
+        rep.count("dyn:cache-served-a-read");
+    }
+    // tie: both builds against the model's primitive steps, and the predicate
+    rep.expect(format!("c04 dyn default {g} {d} {st}"), answer(&rc));
+    rep.expect(format!("c04 dyn sink {g} {d} {st}"), answer(&ru));
+    rep.expect(format!("c04 all {g}"), format!("{}", all_listed as u8));
+    if found.is_empty() {
+        rep.count("dyn:builds-agree");
+    } else if all_listed {
+        for (sig, what) in found {
+            let kind = format!("dyn-{}", sig["kind"].as_str().unwrap_or(""));
+            rep.violation(json!({"kind": kind}), &format!("all-listed dyn-key description: {what}"), replay.clone());
+        }
+    } else {
+        rep.count("dyn:builds-differ(not all-listed)");
+    }
+}
+
+// ---------------------------------------------------------------- directed probe: own write hidden under another key (F-C04-4, fixed in f43c726)
+//
+// A WriteThrough register whose cache key varies (node-valued <pLength>; <pAddress>) and that
+// lists nobody as pInvalidator: read at key 1, move to key 2, write, move back, read.  No other
+// register is involved, so there is nothing to declare: both builds must agree.  Before the
+// repair the cached build returned the entry cached under the old key (own write hidden).  The
+// model states the same history at the primitive level (`Props/C04.lean`, `exDynKey`, `exGraphK`).
+// The probe runs in every harness run and reports a regression as a violation.
+const REPORT_F_C04_4: bool = true;
+
+fn self_key_case(shape: &str, self_inv: Option<&str>) -> ShapeCase {
+    let inv = self_inv.map_or(String::new(), |n| format!("<pInvalidator>{n}</pInvalidator>"));
+    let mut xml = String::from(XML_HEAD);
+    xml += "<Port Name=\"N0\"></Port>\n";
+    xml += "<IntReg Name=\"N1\"><Address>0</Address><Length>1</Length><AccessMode>RW</AccessMode><pPort>N0</pPort><Cachable>NoCache</Cachable><Sign>Unsigned</Sign><Endianess>LittleEndian</Endianess></IntReg>\n";
+    let mut mem = vec![0u8; 16];
+    let ops;
+    if shape == "pLength" {
+        // length 4 -> 2 -> 4 at address 8
+        xml += &format!("<IntReg Name=\"N2\"><Address>8</Address><pLength>N1</pLength><AccessMode>RW</AccessMode><pPort>N0</pPort><Cachable>WriteThrough</Cachable>{inv}<Sign>Unsigned</Sign><Endianess>LittleEndian</Endianess></IntReg>\n");
+        mem[0] = 4;
+        mem[8..12].copy_from_slice(&[0x11; 4]);
+        ops = "v/2;s/1/i2;s/2/i8738;s/1/i4;v/2";
+    } else {
+        // address 8 -> 9 -> 8, length 2: the write at 9 changes the second byte of the entry cached at 8
+        xml += &format!("<IntReg Name=\"N2\"><Address>8</Address><pAddress>N1</pAddress><Length>2</Length><AccessMode>RW</AccessMode><pPort>N0</pPort><Cachable>WriteThrough</Cachable>{inv}<Sign>Unsigned</Sign><Endianess>LittleEndian</Endianess></IntReg>\n");
+        mem[0] = 0;
+        mem[8..11].copy_from_slice(&[0x11; 3]);
+        ops = "v/2;s/1/i1;s/2/i8738;s/1/i0;v/2";
+    }
+    xml += "</RegisterDescription>\n";
+    ShapeCase {
+        xml,
+        kinds: vec![(SK::Port, false), (SK::Int, true), (SK::Int, true)],
+        dev: DevSpec { mem, no_access: vec![], no_write: vec![], rej_w: vec![], rej_p: vec![] },
+        ops: p_list(ops, ';', p_op),
+    }
+}
+
+fn self_key_probe(rep: &mut Report) {
+    for shape in ["pLength", "pAddress"] {
+        // declared variants: the register lists itself / its port -> both builds must agree
+        for inv in ["N2", "N0"] {
+            let case = self_key_case(shape, Some(inv));
+            match shape_findings(&case) {
+                Some((found, _, _)) => {
+                    rep.count(&format!("probe:self-key:{shape}:declared({inv})"));
+                    for (sig, what) in found {
+                        rep.violation(sig, &format!("self-key probe ({shape}, lists {inv}): {what}"), shape_to_json(&case));
+                    }
+                }
+                None => rep.violation(json!({"kind": "harness-xml-rejected"}), "self-key probe XML was rejected by the real builder", shape_to_json(&case)),
+            }
+        }
+        // no declaration at all
+        let case = self_key_case(shape, None);
+        match shape_findings(&case) {
+            Some((found, _, _)) => {
+                if found.is_empty() {
+                    rep.count(&format!("probe:own-write-hidden-under-other-key:not-observed:{shape}"));
+                } else {
+                    rep.count("probe:own-write-hidden-under-other-key:observed");
+                    rep.count(&format!("probe:own-write-hidden-under-other-key:observed:{shape}"));
+                    if REPORT_F_C04_4 {
+                        for (_, what) in found {
+                            rep.violation(json!({"kind": "own-write-hidden-under-other-key", "shape": shape}), &format!("a register's own write is hidden by an entry it cached under another (address, length) key: {what}"), shape_to_json(&case));
+                        }
+                    }
+                }
+            }
+            None => rep.violation(json!({"kind": "harness-xml-rejected"}), "self-key probe XML was rejected by the real builder", shape_to_json(&case)),
+        }
+    }
+}
+
 /// coarse cause class for a differing result (part of the violation signature)
 fn writer_kind(nodes: &[NodeSpec], ops: &[Op], upto: usize) -> &'static str {
     let mut raw = false;
@@ -2574,9 +2909,15 @@ fn main() {
         }
     }
 
+    self_key_probe(&mut rep);
+
     let mut rng = Rng::new(args.seed);
     let n_cases = if args.thorough() { 30_000 } else { 3_000 };
     for i in 0..n_cases {
+        if i % 20 == 13 {
+            do_dyn_case(&mut rep, &mut rng, args.thorough());
+            continue;
+        }
         if i % 10 == 8 {
             let (case, feats) = gen_shape_case(&mut rng, args.thorough());
             do_shape_case(&mut rep, &case, &feats, "shapes-stream");
